@@ -93,7 +93,7 @@ def run(ctx):
     import multiprocessing as mp
     quick0 = ctx.tier == 'quick'
     slow0 = {'cross', 'cross_vld', 'cross_act', 'als', 'als_w', 'als_vld', 'als_adapt', 'als_func', 'als_func_vld', 'als_func_nolamb',
-             'optima_qtt', 'svd_incomplete', 'als_adapt_big'}
+             'optima_qtt', 'svd_incomplete', 'als_adapt_big', 'als_adapt_swap'}
     fresh_names = [n_ for n_ in sorted(RG.CALLS) if not (quick0 and n_ in slow0)]
     with mp.get_context('fork').Pool(12, maxtasksperchild=1) as pool:
         fresh = dict(pool.map(_fresh_fp, fresh_names, chunksize=1))
@@ -121,7 +121,7 @@ def run(ctx):
     quick = ctx.tier == 'quick'
     det = [n for n in sorted(RG.CALLS) if RG.base_name(n) not in {RG.base_name(s) for s in SEEDED if s in RG.CALLS} and n not in DEFAULTS]
     slow = {'cross', 'cross_vld', 'cross_act', 'als', 'als_w', 'als_vld', 'als_adapt', 'als_func', 'als_func_vld', 'als_func_nolamb',
-            'anova2', 'optima_qtt', 'svd_incomplete', 'ANOVA_call'}
+            'anova2', 'optima_qtt', 'svd_incomplete', 'ANOVA_call', 'als_adapt_swap'}
     seen = {}       # key -> fingerprint, across ALL histories of this run
 
     def observe(key, f_, what, case):
